@@ -151,3 +151,37 @@ Example C13_self_closing_example :
   option_map (fun r => (fst r, map (fun a => (aname a, apos a, alen a, aprops a)) (snd r))) (parse_markup (P.render ex_sdoc))
   = Some (STR "abcd", [(STR "pause", 2, 0, [(STR "ms", MInt 250)])]%Z).
 Proof. split; [split; [reflexivity|exact I]|vm_compute; reflexivity]. Qed.
+
+(* the implicit character attribute (Proofs/MarkupCharacterProofs.v): a line `Name: rest` without
+   markup - Name without colon, both parts without '[' or a backslash, no blank at either end of the
+   line - comes back unchanged with exactly one attribute "character" at 0 whose length covers the
+   name, the colon and every blank (regexp \s: tab, newline, form feed, carriage return, space)
+   after it, and whose property "name" is the name (trimmed).  Multi-byte names included: lengths are
+   counted in characters (finding D14 was the byte count). *)
+Require YS.Proofs.MarkupCharacterProofs.
+Module CP := YS.Proofs.MarkupCharacterProofs.
+
+Theorem C13_character_prefix_partial : forall n t,
+  forallb plain_rune n = true -> forallb CP.no_colon n = true -> forallb plain_rune t = true ->
+  no_edge_space (n ++ 58%N :: t) ->
+  parse_markup (n ++ 58%N :: t) =
+  Some (n ++ 58%N :: t,
+        [{| aname := STR "character"; apos := 0; alen := Z.of_nat (S (length n) + count_re_space t); asrc := 0;
+            aprops := [(STR "name", MStr (trim_space n))] |}]).
+Proof. exact CP.character_prefix. Qed.
+Print Assumptions C13_character_prefix_partial.
+
+(* and TextForAttribute on it returns exactly that prefix *)
+Theorem C13_character_prefix_text : forall n t a text attrs,
+  forallb plain_rune n = true -> forallb CP.no_colon n = true -> forallb plain_rune t = true ->
+  no_edge_space (n ++ 58%N :: t) ->
+  parse_markup (n ++ 58%N :: t) = Some (text, attrs) -> In a attrs ->
+  text_for_attribute text a = Some (n ++ 58%N :: firstn (count_re_space t) t).
+Proof. exact CP.character_prefix_text. Qed.
+Print Assumptions C13_character_prefix_text.
+
+Example C13_character_prefix_example :
+  let n := [26085%N; 26412%N] in let t := STR "  hi there" in
+  forallb plain_rune n = true /\ forallb CP.no_colon n = true /\ forallb plain_rune t = true /\ no_edge_space (n ++ 58%N :: t) /\
+  count_re_space t = 2%nat.
+Proof. vm_compute. repeat split; reflexivity. Qed.
